@@ -596,7 +596,21 @@ BadHex == { << >>,                                                 \* no digit
             T(<<"0","0","0","0","0","0","0","0","4","1">>) }       \* ten digits, value 0x41: legal
 HexForms == GoodHex \cup BadHex
 
+\* mnemonic escapes \t \n \r \a \b and the escaped delimiters \" \\ (strings) and \| (symbols), R7RS 6.7 / 7.1.1
+MnVal(c) == CASE c = 116 -> 9 [] c = 110 -> 10 [] c = 114 -> 13 [] c = 97 -> 7 [] c = 98 -> 8
+              [] c = 92 -> 92 [] c = 124 -> 124 [] c = 34 -> 34 [] OTHER -> -1
+\* "wrapped" contexts (strw, symw): the escape stands between a prefix and a suffix of ordinary characters
+\* of every UTF-8 length (1 byte a f, 2 bytes U+E9 U+3BB, 3 bytes U+20AC, 4 bytes U+1F600): a lexer that
+\* copies the text scanned so far when it meets the first escape must count characters and bytes alike
+PfxTab == << <<955>>, <<955, 955>>, <<8364, 97>>, <<128512>>, <<97, 955>>, <<233, 8364, 128512>> >>
+SfxTab == << << >>, <<955>>, <<98>> >>
+WrapEscapes(ctx) == { [syn |-> "x", hex |-> <<52, 49>>], [syn |-> "x", hex |-> <<51, 98, 98>>],
+                      [syn |-> "x", hex |-> <<49, 70, 54, 48, 48>>],
+                      [syn |-> "mn", hex |-> <<116>>], [syn |-> "mn", hex |-> <<110>>],
+                      [syn |-> "mn", hex |-> IF ctx = "symw" THEN <<124>> ELSE <<34>>] }
+                    \cup (IF ctx = "strw" THEN {[syn |-> "mn", hex |-> <<92>>]} ELSE {})
 EscBody(syn, h) == CASE syn = "x"  -> <<92, 120>> \o h \o <<59>>
+                     [] syn = "mn" -> <<92>> \o h
                      [] syn = "u"  -> <<92, 117>> \o h \o <<59>>
                      [] syn = "ub" -> <<92, 117, 123>> \o h \o <<125>>
                      [] syn = "xn" -> <<92, 120>> \o h
@@ -608,19 +622,25 @@ EscText(r) == CASE r.ctx = "str"  -> DQ \o EscBody(r.syn, r.hex) \o DQ
                 [] r.ctx = "strf" -> DQ \o <<48>> \o EscBody(r.syn, r.hex) \o <<102>> \o DQ     \* "0<esc>f": hex digits around
                 [] r.ctx = "symf" -> BAR \o <<97>> \o EscBody(r.syn, r.hex) \o <<102>> \o BAR
                 [] r.ctx = "char" -> HashBs \o EscCharBody(r.syn, r.hex)
+                [] r.ctx = "strw" -> DQ \o r.pfx \o EscBody(r.syn, r.hex) \o r.sfx \o DQ
+                [] r.ctx = "symw" -> BAR \o r.pfx \o EscBody(r.syn, r.hex) \o r.sfx \o BAR
 \* the code point the text denotes, -1 = the text must be rejected
-EscValue(r) == IF r.syn = "xn" \/ (STRICT /\ r.syn # "x") THEN -1
+EscValue(r) == IF r.syn = "mn" THEN MnVal(r.hex[1])
+               ELSE IF r.syn = "xn" \/ (STRICT /\ r.syn # "x") THEN -1
                ELSE IF r.ctx = "char" /\ r.hex = << >> /\ r.syn = "x" THEN 120      \* #\x is the letter x
                ELSE IF r.ctx = "char" /\ r.hex = << >> /\ r.syn = "u" THEN 117      \* #\u is the letter u
                ELSE ScalarOf(r.hex)
 EscDatum(r) == LET v == EscValue(r) IN
                CASE r.ctx = "str" -> StrD(<<v>>) [] r.ctx = "sym" -> SymD(<<v>>) [] r.ctx = "char" -> CharD(v)
                  [] r.ctx = "strf" -> StrD(<<48, v, 102>>) [] r.ctx = "symf" -> SymD(<<97, v, 102>>)
+                 [] r.ctx = "strw" -> StrD(r.pfx \o <<v>> \o r.sfx) [] r.ctx = "symw" -> SymD(r.pfx \o <<v>> \o r.sfx)
 
 EscNext == /\ stack = << >>
-           /\ \E ctx \in {"str", "sym", "char", "strf", "symf"}, syn \in {"x", "u", "ub", "xn"}, h \in HexForms :
-                 /\ ~(ctx = "char" /\ syn = "xn")
-                 /\ stack' = << [k |-> "esc", ctx |-> ctx, syn |-> syn, hex |-> h] >>
+           /\ \/ \E ctx \in {"str", "sym", "char", "strf", "symf"}, syn \in {"x", "u", "ub", "xn"}, h \in HexForms :
+                    /\ ~(ctx = "char" /\ syn = "xn")
+                    /\ stack' = << [k |-> "esc", ctx |-> ctx, syn |-> syn, hex |-> h] >>
+              \/ \E ctx \in {"strw", "symw"}, p \in 1..Len(PfxTab), q \in 1..Len(SfxTab) : \E e \in WrapEscapes(ctx) :
+                    stack' = << [k |-> "esc", ctx |-> ctx, syn |-> e.syn, hex |-> e.hex, pfx |-> PfxTab[p], sfx |-> SfxTab[q]] >>
            /\ UNCHANGED <<nodes, txt>>
 
 -----------------------------------------------------------------------------
